@@ -15,6 +15,22 @@ NOTES = {
     'R07_n1': 'first run: C04 obligation broke but no failing input was found -> self tail calls with too many / too few arguments added',
     'R07_n3': 'outside C03\'s stated domain (a declaration after a closure already read the name from an enclosing scope), so C03 rightly stays silent; the change rewrites Environment.Assign, which breaks the mechanism-trace obligation of C06',
     'R08_n1': 'first run: missed by all 20 -> C11 operations that append an array as an element / build a literal from arrays, and == on aliases, with a pure-Python reference',
+    'S01_n2': 'first run: missed by all 20 -> C02: numeric strings (2^53+1, 2^63, Bangla digits, exponents, blanks) as operands of every operator and as indexes',
+    'S01_n3': 'first run: missed by C02 (C03/C06 saw it) -> C02: every pair of numeric strings under == != + <',
+    'S02_n1': 'first run: missed by C15 -> strings with compatibility-only decompositions (ligatures, superscripts, full-width, NBSP) must print unchanged',
+    'S02_n3': 'first run: missed by C08 (C09/C10 saw it) -> texts and script files that begin with, contain or consist of U+FEFF / U+200B',
+    'S03_n2': 'first run: missed by C20 -> sessions whose earlier lines fail deep inside recursion (cumulative depth 120 000)',
+    'S04_n1': 'first run: missed by C03 (mechanism trace of C06 broke) -> a name bound twice in one scope, then assigned and read',
+    'S05_n1': 'first run: missed by all 20 -> C05: loops with constant-true / omitted conditions whose only exit sits in a then / else / else-if / nested arm, followed by code, at top level, in blocks, functions and loops',
+    'S05_n2': 'first run: missed by all 20 -> C06: stray return whose value is computed by calls that return on other lines',
+    'S06_n2': 'first run: missed by C11 (C17 saw it) -> every built-in that accepts an array leaves its elements (type and value) alone',
+    'S07_n1': 'first run: missed by all 20 -> C09: CR LF / lone CR inside string literals, comments and between tokens through the real process',
+    'S07_n3': 'first run: missed by C20 (C01/C08 saw it) -> sessions with 99..300 failing lines of one kind before further lines',
+    'S08_n1': 'first run: missed by C01 and C08 -> every pattern of initialised / uninitialised declarators up to four, in declarations and for-initialisers',
+    'S08_n3': 'first run: missed by all 20 -> C06: faults in later declarators of a list whose earlier initialisers span lines',
+    'S09_n2': 'needs a 32-bit hash collision with a keyword (1 in 3e8 identifiers): no search finds it; caught by the new mechanism obligation on identifier() (the look-up key is the whole lexeme, the table is the spelling table) - reported as no-failing-input-found',
+    'S10_n1': 'first run: missed by all 20 -> C12: every read, write, delete and listing also through one helper function per key (the same syntactic site before and after the object changes)',
+    'S10_n2': 'first run: missed by C03 (mechanism trace of C06 broke) -> scopes with 15..70 names (top level, block, function, parameters), each assigned and read',
     'R10_n2': 'first run: missed by all 20 -> C09 runs three 77 KB scripts of mostly three-byte characters (three alignments) through the real process',
 }
 
@@ -45,16 +61,21 @@ def main():
 and a scratch worktree; round 2 was told what round 1 had tried and asked for rarer triggers.  Round 3 (%d changes, `Rxx_nk`): ten agents, one per
 area of the code (lexer, statement parser, expression parser, statement arms, expression arms, operator helpers, function.go + environment.go,
 array/object built-ins, maths/input built-ins, main.go + utils.go), given all twenty property texts and asked for plausible maintenance edits
-(refactorings, optimisations, "fixes") in their area that break some property.  Each change was confirmed by `tools/seedtest.py` in a scratch worktree
+(refactorings, optimisations, "fixes") in their area that break some property.  Round 4 (%d changes, `Sxx_nk`): ten agents, one per
+theme (number <-> text conversions, Unicode, error signalling, scopes and closures, control flow, containers, command line and input,
+parser, lexer, performance-motivated caches and fast paths), given the twenty property texts and the summaries of all 110 earlier
+changes, asked for changes of a different kind that show only for rare inputs.  Each change was confirmed by `tools/seedtest.py` in a scratch worktree
 (applies, builds, baseline suite unchanged, demonstration differs between clean and changed build) and then `./check <ID> --tier quick` was run with
 the checkout overridden to the changed tree; when the target check stayed silent all other checks were run.  Kept under `seeded/<name>/`
 (patch.diff, demonstration, meta.json).  After strengthening, every change is caught by the check of the property it was written against, with a
-concrete failing input, except R07_n3, which lies outside its property's domain and is caught by the mechanism-trace obligation instead.  The notes
+concrete failing input, except R07_n3, which lies outside its property's domain, and S09_n2, which no search can trigger; both are
+caught by a mechanism obligation (reported as no-failing-input-found).  Of the 60 changes of rounds 3 and 4, 27 were missed by their
+target check on the first run and 11 by all twenty checks: every one led to a new generic input family or mechanism obligation.  The notes
 say what the first run missed and what was added (the added streams are generic - families of inputs, not the seeded input itself).
 
 | change | what was changed | needs | caught by | first evidence |
 |---|---|---|---|---|
-''' % (len(metas), n_c, n_r)
+''' % (len(metas), n_c, n_r, n_s)
     text = head + '\n'.join(rows) + '\n'
     p = os.path.join(ROOT, 'DESIGN.md')
     s = open(p).read()
